@@ -86,6 +86,23 @@ def nestAudit (choiceSet : List Int) (nests : List (List Int)) : NestVerdict :=
   if nestsOutside choiceSet nests != [] then .outsideChoiceSet
   else if nestsOverlap nests then .overlap else .accepted
 
+/-- a nest as the user writes it: a free label (or none) and its alternatives -/
+structure NamedNest where
+  name : Option String
+  alts : List Int
+deriving Repr
+
+/-- `Nests.__init__`: an unnamed nest gets `nest_<position>` (positions from 1); a name already
+borne — given by the user or kept from an earlier specification that used the object — stays -/
+def assignNames : Nat → List NamedNest → List (String × List Int)
+  | _, [] => []
+  | pos, n :: rest => (n.name.getD s!"nest_{pos}", n.alts) :: assignNames (pos + 1) rest
+
+/-- the audit of named nests: `check_intersection` loops over the POSITIONS of the tuple of nests
+(`enumerate`, `i != j`), never over names: equal names do not merge nests -/
+def nestAuditNamed (choiceSet : List Int) (ns : List NamedNest) : NestVerdict :=
+  nestAudit choiceSet ((assignNames 1 ns).map (·.2))
+
 /-! ### sessions: evaluations and edits on the same objects -/
 
 /-- the formula under one selection of its catalog -/
